@@ -78,21 +78,22 @@ CONFIGS = [None, {"valid_addr_range": {"min": "401000", "max": "401fff"}}, {"mne
 def run_lines(shard, tier, h, res, known, clauses):
     for conf in CONFIGS:
         run_lines_conf(shard, tier, h, res, known, clauses, conf)
+    run_lines_conf(shard, tier, h, res, known, clauses, None, crlf=True)       # the same texts saved with DOS line endings
 
 
-def run_lines_conf(shard, tier, h, res, known, clauses, conf):
+def run_lines_conf(shard, tier, h, res, known, clauses, conf, crlf=False):
     from mc.common import make_rule_doc
     mop = h.mop(make_rule_doc(["zzzznomatch"], conf))
     L = bounds(tier)["line_seq_len"]
     seqs = [s for n in range(0, L + 1) for s in itertools.product(range(len(KINDS)), repeat=n)]
     for si in range(shard["lo"], len(seqs), shard["n"]):
         text = "\n".join(KINDS[k] for k in seqs[si]) + "\n"
-        problems, cnt = ob.analyse_text(h, mop, text, clauses)
+        problems, cnt = ob.analyse_text(h, mop, text, clauses, crlf=crlf)
         res.evaluations += 1
         if cnt["inst_lines"]:
             res.nontrivial += 1
         for clause, line, exp, obs in problems:
-            res.fail({"clause": clause, "family": "lines", "text": text, "config": conf, "line": line, "expected": str(exp),
+            res.fail({"clause": clause, "family": "lines", "text": text, "config": conf, "crlf": crlf, "line": line, "expected": str(exp),
                       "observed": str(obs), "size": len(text)}, known)
 
 
@@ -125,6 +126,6 @@ def replay(case, h):
         return bool(r.fails), str(r.fails)[:300]
     if case.get("family") == "lines":
         from mc.common import make_rule_doc
-        problems, _ = ob.analyse_text(h, h.mop(make_rule_doc(["zzzznomatch"], case.get("config"))), case["text"], CLAUSES)
+        problems, _ = ob.analyse_text(h, h.mop(make_rule_doc(["zzzznomatch"], case.get("config"))), case["text"], CLAUSES, crlf=bool(case.get("crlf")))
         return bool(problems), str(problems)
     return ob.replay_line(case, h, CLAUSES)
